@@ -114,29 +114,35 @@ bool RSEquationProcessor::PrecheckFor(const EntityUID key, const EntityUID value
   }
 }
 
-rslang::ExpressionType RSEquationProcessor::Evaluate(const EntityUID uid) const {
+std::optional<rslang::ExpressionType> RSEquationProcessor::Evaluate(const EntityUID uid) const {
   const auto* type = schema.GetParse(uid).TypePtr();
   if (!std::holds_alternative<rslang::Typification>(*type)) {
     return *type;
   } else {
     auto typificationText = std::get<rslang::Typification>(*type).ToString();
+    auto substitutionsLeft = std::size(*equations);
     while (rslang::SubstituteGlobals(typificationText, nameSubstitutes) > 0) {
+      if (substitutionsLeft-- == 0) {
+        return std::nullopt; // Note: typifications of replacements refer to replaced sets in a loop
+      }
       const auto fixedType = schema.RSLang().Evaluate(typificationText);
-      assert(fixedType.has_value());
-      // NOLINTNEXTLINE(bugprone-unchecked-optional-access)
+      if (!fixedType.has_value() || !std::holds_alternative<rslang::Typification>(fixedType.value())) {
+        return std::nullopt; // Note: replacement is not a set, so it cannot stand for a base set of a typification
+      }
       typificationText = std::get<rslang::Typification>(fixedType.value()).B().Base().ToString();
     }
-    // NOLINTNEXTLINE(bugprone-unchecked-optional-access)
-    return std::get<rslang::Typification>(schema.RSLang().Evaluate(typificationText).value());
+    return schema.RSLang().Evaluate(typificationText);
   }
 }
 
 bool RSEquationProcessor::CheckNonBasicEquations() const {
   for (const auto& [key, value] : *equations) {
-    if (!IsBaseSet(schema.GetRS(key).type) && 
-        !IsBaseSet(schema.GetRS(value).type) &&
-        Evaluate(key) != Evaluate(value)) {
-      return false;
+    if (!IsBaseSet(schema.GetRS(key).type) && !IsBaseSet(schema.GetRS(value).type)) {
+      const auto keyType = Evaluate(key);
+      const auto valueType = Evaluate(value);
+      if (!keyType.has_value() || !valueType.has_value() || keyType.value() != valueType.value()) {
+        return false;
+      }
     }
   }
   return true;
